@@ -1,0 +1,116 @@
+//! Verification hooks, compiled only with `--cfg dashu_verif`.
+//!
+//! This module re-exports word-level kernels that live in private modules and offers
+//! constructors/observers for the raw layout of [UBig]/[IBig], so that an external
+//! checker can drive the real kernels and state the representation invariants directly.
+//! Nothing here is reachable (or even compiled) in a normal build.
+
+#![allow(missing_docs)]
+
+use crate::{
+    arch::word::{DoubleWord, Word},
+    ibig::IBig,
+    repr::Repr,
+    ubig::UBig,
+    Sign,
+};
+
+pub use crate::buffer::Buffer;
+pub use crate::memory::{Memory, MemoryAllocation};
+pub use crate::repr::{TypedRepr, TypedReprRef};
+
+/// Word level kernels
+pub mod add {
+    pub use crate::add::*;
+}
+pub mod shift {
+    pub use crate::shift::*;
+}
+pub mod cmp {
+    pub use crate::cmp::*;
+}
+pub mod math {
+    pub use crate::math::*;
+}
+pub mod primitive {
+    pub use crate::primitive::*;
+}
+pub mod mul {
+    pub use crate::mul::*;
+}
+pub mod sqr {
+    pub use crate::sqr::*;
+}
+pub mod div {
+    use super::*;
+    pub use crate::div::{
+        div_by_dword_in_place, div_by_word_in_place, memory_requirement_exact, rem_by_dword,
+        rem_by_word,
+    };
+
+    /// See `div::div_rem_in_place`: `lhs = [lhs % rhs, lhs / rhs]`, returns the quotient carry.
+    pub fn div_rem_unshifted_in_place(
+        lhs: &mut [Word],
+        rhs: &mut [Word],
+        memory: &mut Memory,
+    ) -> (u32, Word) {
+        let (shift, fast_div_top) = crate::div::normalize(rhs);
+        let carry = crate::div::div_rem_unshifted_in_place(lhs, rhs, shift, fast_div_top, memory);
+        (shift, carry)
+    }
+}
+pub mod gcd {
+    pub use crate::gcd::*;
+}
+pub mod root {
+    pub use crate::root::*;
+}
+pub mod radix {
+    pub use crate::radix::*;
+}
+
+/// Build an [UBig] holding exactly `words` with a chosen layout (see `Repr::verif_from_shape`).
+pub fn ubig_from_shape(words: &[Word], capacity: usize) -> UBig {
+    UBig(Repr::verif_from_shape(Sign::Positive, words, capacity))
+}
+
+/// Build an [IBig] holding exactly `words` with a chosen sign and layout.
+pub fn ibig_from_shape(sign: Sign, words: &[Word], capacity: usize) -> IBig {
+    IBig(Repr::verif_from_shape(sign, words, capacity))
+}
+
+/// (signed capacity field, stored length in words, stored inline?)
+pub fn ubig_shape(x: &UBig) -> (isize, usize, bool) {
+    x.0.verif_shape()
+}
+
+/// (signed capacity field, stored length in words, stored inline?)
+pub fn ibig_shape(x: &IBig) -> (isize, usize, bool) {
+    x.0.verif_shape()
+}
+
+/// The raw words of a value that is stored inline.
+pub fn ubig_inline_words(x: &UBig) -> [Word; 2] {
+    x.0.verif_inline_words()
+}
+
+/// The raw words of a value that is stored inline.
+pub fn ibig_inline_words(x: &IBig) -> [Word; 2] {
+    x.0.verif_inline_words()
+}
+
+/// Wrap a raw `Repr`
+pub fn ubig_from_repr(r: Repr) -> UBig {
+    UBig(r)
+}
+pub fn ibig_from_repr(r: Repr) -> IBig {
+    IBig(r)
+}
+pub use crate::repr::Repr as RawRepr;
+
+pub fn pow_word_base(base: Word, exp: usize) -> UBig {
+    UBig(crate::pow::repr::pow_word_base(base, exp))
+}
+pub fn pow_dword_base(base: DoubleWord, exp: usize) -> UBig {
+    UBig(crate::pow::repr::pow_dword_base(base, exp))
+}
